@@ -144,7 +144,8 @@ func init() {
 func init() {
 	scenarios["pipe_tornfile"] = func(raw json.RawMessage) *vrt.Scenario {
 		return &vrt.Scenario{Name: "pipe_tornfile", FreeChoices: true, Main: func() {
-			pp := newPipe(PipeParams{Mode: "script", Layout: "multi", Backend: "file"})
+			latest := vrt.Choose(2, true, "auto-reset") == 1
+			pp := newPipe(PipeParams{Mode: "script", Layout: "multi", Backend: "file", Latest: latest})
 			defer pp.cleanup()
 			pp.deliverScript(0)
 			pp.deliverScript(0)
